@@ -173,6 +173,10 @@ func verifyAndJudge(o *drv.Out, v *Verifier, lim *limiter, n int, root []byte, s
 		lim.fail("C16:forged-proof-accepted-as-nonmembership:sibling-pair-resplit", what, replay("verify "+req))
 	case res == "accept" && !tr && strings.Contains(kind, "pair-resplit"):
 		lim.fail("C16:forged-proof-accepted-as-membership:sibling-pair-resplit", what, replay("verify "+req))
+	case res == "accept" && !tr && strings.HasPrefix(kind, "truncated-bottom") && !st.membership:
+		lim.fail("C16:truncated-proof-accepted-as-nonmembership", what, replay("verify "+req))
+	case res == "accept" && !tr && strings.HasPrefix(kind, "truncated-bottom"):
+		lim.fail("C16:truncated-proof-accepted-as-membership", what, replay("verify "+req))
 	case res == "accept" && !tr && !st.membership:
 		lim.fail("C16:forged-proof-accepted-as-nonmembership", what, replay("verify "+req))
 	case res == "accept" && !tr:
@@ -448,6 +452,7 @@ func runStoreCase(o *drv.Out, lim *limiter, u *c08.Universe, ci int) {
 					}
 				}
 			}
+			Progress(fmt.Sprintf("store-proof #%d (%s)", ci, mode), "commit", hist)
 			root, e := st.Commit()
 			if e != nil {
 				panic(e)
@@ -592,6 +597,7 @@ func runStoreCase(o *drv.Out, lim *limiter, u *c08.Universe, ci int) {
 					n++
 				}
 			}
+			Progress(fmt.Sprintf("store-proof #%d (%s)", ci, mode), "root (block in progress)", hist)
 			next, e := st.Root()
 			if e != nil {
 				panic(e)
@@ -726,14 +732,17 @@ func runStoreCase(o *drv.Out, lim *limiter, u *c08.Universe, ci int) {
 
 // Run is the C16 driver.
 func Run(o *drv.Out) {
+	progressDir = o.Dir
 	v := &Verifier{Timeout: 4e9}
 	defer v.Close()
 	lim := &limiter{o: o, seen: map[string]int{}}
 	RunWitnesses(o, v, lim)
 	RunResplitCorpus(o, v, lim)
 	RunLengthResplitCorpus(o, v, lim)
+	RunTruncatedCorpus(o, v, lim)
 	RunPairResplitCorpus(o, v, lim) // the known finding comes last of the corpus
 	RunSMT(o, v, lim)
+	RunStoreParallelBlocks(o, lim)
 	RunStore(o, lim)
 	o.Extra["verify_hangs_killed"] = v.Hangs
 }
